@@ -134,6 +134,8 @@ class C14(Harness):
                 ops.append(['open_edit', i])
         if sl == 'base' and len(model['edit']) < self.MAXNEST:
             ops.append(['open_edit', 'B'])          # class-level block
+        if sl == 'base' and len(model['held']) < 3:
+            ops.append(['new'])                     # a third instance, possibly built while a block is open: its constants are pinned all the same
         if sl == 'named':
             ops += [['cset', 'A', 'name', 'zn'], ['cset', 'B', 'name', 'zm']]
         if sl == 'refs':
@@ -237,6 +239,10 @@ class C14(Harness):
                         setattr(inst, n, val)
                     else:
                         inst.param.update(**{n: val})
+                elif k == 'new':
+                    inst = w['B']()
+                    w['i'].append(inst)
+                    model['held'].append({'c': model['cls']['B'] or model['cls']['A'], 'r': 7, 'name': inst.name, 'cn': model['cls'].get('B.cn') or model['cls'].get('A.cn')})
                 elif k == 'touch':
                     w['i'][op[1]].param[op[2]]
                 elif k == 'cset':
@@ -312,6 +318,8 @@ class C14(Harness):
             elif k == 'cset':
                 if exc is None and op[2] == 'c':
                     model['cls'][op[1]] = op[3]
+                if exc is None and op[2] == 'cn':
+                    model['cls'][op[1] + '.cn'] = op[3]
                 if last:
                     if expect_exc == 'TypeError' and not isinstance(exc, TypeError):
                         vs.append(V('readonly-class-set', '%s: class-level assignment to the read-only parameter gave %r' % (ctx, exc), cls=op[1]))
@@ -389,7 +397,7 @@ class C14(Harness):
                                         level='instance', name=n, after=k))
         fp = None
         if not vs:
-            roots = [('A', w['A']), ('B', w['B']), ('i0', w['i'][0]), ('i1', w['i'][1])]
+            roots = [('A', w['A']), ('B', w['B'])] + [('i%d' % i, o) for i, o in enumerate(w['i'])]
             if sl == 'refs':
                 roots += [('S', w['S']), ('T', w['T'])]
             w['hook'].clear()
